@@ -1,0 +1,53 @@
+//go:build verif
+
+package ct
+
+import "bytes"
+
+// Verification hooks for the TLS-style codec helpers and the signature
+// verifier core. Add-only; compiled only with the build tag "verif".
+
+// VerifWriteUint runs writeUint into a fresh buffer and returns what was written.
+func VerifWriteUint(value uint64, numBytes int) ([]byte, error) {
+	var buf bytes.Buffer
+	err := writeUint(&buf, value, numBytes)
+	return buf.Bytes(), err
+}
+
+// VerifWriteVarBytes runs writeVarBytes into a fresh buffer and returns what was written.
+func VerifWriteVarBytes(value []byte, numLenBytes int) ([]byte, error) {
+	var buf bytes.Buffer
+	err := writeVarBytes(&buf, value, numLenBytes)
+	return buf.Bytes(), err
+}
+
+// VerifReadUint runs readUint on b and also returns the number of unread bytes.
+func VerifReadUint(b []byte, numBytes int) (uint64, int, error) {
+	r := bytes.NewReader(b)
+	v, err := readUint(r, numBytes)
+	return v, r.Len(), err
+}
+
+// VerifReadVarBytes runs readVarBytes on b and also returns the number of unread bytes.
+func VerifReadVarBytes(b []byte, numLenBytes int) ([]byte, int, error) {
+	r := bytes.NewReader(b)
+	v, err := readVarBytes(r, numLenBytes)
+	return v, r.Len(), err
+}
+
+// VerifReadASN1CertList runs readASN1CertList on b and also returns the number of unread bytes.
+func VerifReadASN1CertList(b []byte, totalLenBytes, elementLenBytes int) ([]ASN1Cert, int, error) {
+	r := bytes.NewReader(b)
+	v, err := readASN1CertList(r, totalLenBytes, elementLenBytes)
+	return v, r.Len(), err
+}
+
+// VerifMarshalDigitallySignedHere exposes marshalDigitallySignedHere.
+func VerifMarshalDigitallySignedHere(ds DigitallySigned, here []byte) ([]byte, error) {
+	return marshalDigitallySignedHere(ds, here)
+}
+
+// VerifVerifySignature exposes SignatureVerifier.verifySignature.
+func VerifVerifySignature(s *SignatureVerifier, data []byte, sig DigitallySigned) error {
+	return s.verifySignature(data, sig)
+}
